@@ -300,7 +300,7 @@ func runnerSrc(gp *GenParser) string {
 	var sb strings.Builder
 	name := gp.Name
 	p := gp.G.Parser
-	fmt.Fprintf(&sb, "func run_%s(input int, text string, cancelAt int) (out string) {\n", name)
+	fmt.Fprintf(&sb, "func run_%s(input int, text string, cancelAt int, prev string) (out string) {\n", name)
 	sb.WriteString("\tvar sb strings.Builder\n\tdefer func() { if r := recover(); r != nil { out = sb.String() + \"panic\" } }()\n")
 	fmt.Fprintf(&sb, "\tvar l %s.Lexer\n\tl.Init(text)\n\tvar p %s.Parser\n", name, name)
 	if gp.Opts.Cancellable {
@@ -316,6 +316,29 @@ func runnerSrc(gp *GenParser) string {
 	} else {
 		fmt.Fprintf(&sb, "\tp.Init(%s)\n", listener)
 	}
+	// parser reuse: one Init, a first Parse of `prev` (output discarded), then the real input
+	sb.WriteString("\tif prev != \"\" {\n\t\tl.Init(prev)\n\t\tswitch input {\n")
+	multi0 := 0
+	for _, in := range p.Inputs {
+		if !in.Synthetic {
+			multi0++
+		}
+	}
+	for i, in := range p.Inputs {
+		if in.Synthetic {
+			continue
+		}
+		method := "Parse"
+		if multi0 > 1 {
+			method += gp.G.Syms[p.NumTerminals+in.Nonterm].ID
+		}
+		ctx := ""
+		if gp.Opts.Cancellable {
+			ctx = "ctx, "
+		}
+		fmt.Fprintf(&sb, "\t\tcase %d:\n\t\t\tp.%s(%s&l)\n", i, method, ctx)
+	}
+	sb.WriteString("\t\t}\n\t\tsb.Reset()\n\t\tl.Init(text)\n\t}\n")
 	sb.WriteString("\tvar err error\n\tswitch input {\n")
 	multi := 0
 	for _, in := range p.Inputs {
@@ -365,7 +388,7 @@ func (b *Batch) Build() error {
 		}
 		main.WriteString(runnerSrc(gp))
 	}
-	main.WriteString("var runners = map[string]func(int, string, int) string{\n")
+	main.WriteString("var runners = map[string]func(int, string, int, string) string{\n")
 	for _, gp := range b.Parsers {
 		fmt.Fprintf(&main, "\t%q: run_%s,\n", gp.Name, gp.Name)
 	}
@@ -376,8 +399,8 @@ func (b *Batch) Build() error {
 	w := bufio.NewWriter(os.Stdout)
 	defer w.Flush()
 	for sc.Scan() {
-		parts := strings.SplitN(sc.Text(), "\t", 4)
-		if len(parts) != 4 {
+		parts := strings.SplitN(sc.Text(), "\t", 5)
+		if len(parts) != 5 {
 			fmt.Fprintln(w, "badline")
 			continue
 		}
@@ -393,7 +416,12 @@ func (b *Batch) Build() error {
 			fmt.Fprintln(w, "norunner")
 			continue
 		}
-		fmt.Fprintln(w, r(input, text, cancelAt))
+		prev, err := strconv.Unquote(parts[4])
+		if err != nil {
+			fmt.Fprintln(w, "badquote")
+			continue
+		}
+		fmt.Fprintln(w, r(input, text, cancelAt, prev))
 		w.Flush()
 	}
 }
@@ -424,6 +452,7 @@ type RunReq struct {
 	Input    int
 	CancelAt int // 0 = never
 	Text     string
+	Prev     string // if non-empty: the same Parser object first parses this text (output discarded)
 }
 
 // Run feeds all requests to the runner binary and returns one output line per request. A crash or
@@ -431,7 +460,7 @@ type RunReq struct {
 func (b *Batch) Run(reqs []RunReq) []string {
 	var in bytes.Buffer
 	for _, r := range reqs {
-		fmt.Fprintf(&in, "%s\t%d\t%d\t%s\n", r.Parser, r.Input, r.CancelAt, strconvQuote(r.Text))
+		fmt.Fprintf(&in, "%s\t%d\t%d\t%s\t%s\n", r.Parser, r.Input, r.CancelAt, strconvQuote(r.Text), strconvQuote(r.Prev))
 	}
 	ctx, cancel := context.WithTimeout(context.Background(), 10*time.Minute)
 	defer cancel()
